@@ -361,7 +361,30 @@ func derivedFromIn(v ssa.Value, roots map[ssa.Value]bool, hdr *ssa.BasicBlock) b
 			if b, ok := x.Call.Value.(*ssa.Builtin); ok && (b.Name() == "len" || b.Name() == "cap") {
 				return walk(x.Call.Args[0])
 			}
-			return false
+			// the result of a call whose receiver and arguments are all derived (no package-level state is
+			// written anywhere: GLOB-1/2, so what the callee does and returns depends on them alone)
+			if x.Call.IsInvoke() && !walk(x.Call.Value) {
+				return false
+			}
+			if !x.Call.IsInvoke() {
+				if _, isFn := x.Call.Value.(*ssa.Function); !isFn {
+					return false
+				}
+			}
+			for _, a := range x.Call.Args {
+				if els := varargElems(a); len(els) > 0 {
+					for _, e := range els {
+						if !walk(e) {
+							return false
+						}
+					}
+					continue
+				}
+				if !walk(a) {
+					return false
+				}
+			}
+			return true
 		}
 		return false
 	}
@@ -451,6 +474,27 @@ func glob4(c *Ctx) {
 								}
 							}
 							continue
+						}
+						// a static call whose receiver and arguments are all derived from the iteration key/value:
+						// its effects are on what they reach (nothing package-level is written: GLOB-1/2)
+						if _, isFn := cc.Value.(*ssa.Function); isFn {
+							allDerived := true
+							for _, a := range cc.Args {
+								if els := varargElems(a); len(els) > 0 {
+									for _, e := range els {
+										if !derivedFromIn(e, roots, hdr) {
+											allDerived = false
+										}
+									}
+									continue
+								}
+								if !derivedFromIn(a, roots, hdr) {
+									allDerived = false
+								}
+							}
+							if allDerived {
+								continue
+							}
 						}
 						problems = append(problems, fmt.Sprintf("call at %s inside a map range (effect not keyed by the iteration key)", c.P.Pos(x.Pos())))
 					case *ssa.Return:
